@@ -3,3 +3,4 @@ import UrcuVerif.Gen.Constants
 import UrcuVerif.Gen.BitRev
 import UrcuVerif.Poll.Inv
 import UrcuVerif.Props.C14
+import UrcuVerif.Props.C01
